@@ -38,6 +38,7 @@ MIN_REACH = {
     "overwrites_applied": {"quick": 40, "thorough": 700},
     "failed_saves": {"quick": 25, "thorough": 400},
     "older_session_reused": {"quick": 12, "thorough": 200},
+    "lazily_chunked_harvesters": {"quick": 15, "thorough": 300},
     "memory_persisted_after_unsynced_steps": {"quick": 12, "thorough": 200},
     "unsynced_steps_before_first_save": {"quick": 25, "thorough": 400},
 }
@@ -120,6 +121,21 @@ def cases(ctx):
                         st["pts"] = list(dict.fromkeys((a, rng.choice(B_VALS + ["uu", "vwx"])) for a, _ in st["pts"]))
         # a run of harvests kept in memory only (sync=False) AFTER the file exists, then a step that saves the current
         # memory (drop_sel / expand_dims / save_full_ds): everything harvested in between must reach the disk
+        chunks = rng.choice([None, None, None, None, 1, 2, {"a": 1}])
+        lazy = chunks is not None and engine == "h5netcdf" and not mem_only
+        if lazy and rng.random() < 0.7:
+            # one lazily chunked session saving several times in a row without a reload in between (drop_sel and
+            # expand_dims work on the dataset in memory): every save replaces the file the dask arrays read from
+            tail = [{"op": "combos", "policy": True, "version": 0, "new_session": rng.random() < 0.3, "reuse_old": False,
+                     "a": rng.sample(A_VALS, 4), "b": list(B_VALS), "c": [C_VALS[0]]}]
+            first = rng.choice(["a", "b"])
+            for k in range(rng.randint(2, 3)):
+                dim = first if k == 0 else rng.choice(["a", "b"])
+                # (the first drop takes the FIRST label of an axis, in a session that loaded its dataset from the file)
+                lab = (A_VALS if dim == "a" else B_VALS)[0] if k == 0 else rng.choice((A_VALS if dim == "a" else B_VALS)[1:])
+                tail.append({"op": "drop_sel", "policy": None, "version": 0, "new_session": k == 0 and rng.random() < 0.8,
+                             "reuse_old": False, "a": [1], "b": ["u"], "c": [C_VALS[0]], "dim": dim, "labels": [lab]})
+            steps.extend(tail)
         if not mem_only and len(steps) >= prefix + 1 and rng.random() < 0.25:
             at = rng.randint(prefix + 1, len(steps))        # (after the first synced step, which creates the file)
             nrun = rng.randint(1, 2)
@@ -142,7 +158,7 @@ def cases(ctx):
                     st["a"], st["b"] = st["a"][:2], st["b"][:1]
         yield {"steps": steps, "engine": engine, "mem_only": mem_only, "unsynced_prefix": prefix, "kind": kind,
                "name": rng.choice(["hv", "hv_data", "full.v1"]) + (rng.choice(["", {"h5netcdf": ".h5", "joblib": ".dmp"}[engine]])),
-               "extra_const": rng.random() < 0.3}
+               "extra_const": rng.random() < 0.3, "chunks": chunks}
 
 
 class Conflict(Exception):
@@ -177,10 +193,15 @@ def run_case(ctx, case):
             return {"y": v[0], "z": np.asarray(v[1])}
         return {"y": float(v)}
 
+    hkw = {}
+    if case.get("chunks") and engine == "h5netcdf" and not case["mem_only"]:
+        # a Harvester that keeps its dataset lazily (dask chunks over the file) - a documented configuration
+        hkw["chunks"] = case["chunks"]
+        ctx.count("lazily_chunked_harvesters")
     dims = ["a", "b"]
     model = {}                 # coordinate tuple (in `dims` order) -> {var: value}
     axes = {"a": set(), "b": set()}
-    h = xyzpy.Harvester(new_runner(0), data_name=data_name, engine=engine)
+    h = xyzpy.Harvester(new_runner(0), data_name=data_name, engine=engine, **hkw)
     alive = [h]                # every session opened so far stays open (a long-lived object in another notebook)
     hist = []
     nviol = 0
@@ -295,13 +316,15 @@ def run_case(ctx, case):
             st = dict(st, new_session=False)
             if op == "save_merge":
                 op = "add_ds"
+        if hkw and op == "save_merge":
+            op = "add_ds"       # (a bare save_merge_ds rewrites the file in place: HDF5 refuses that while a lazy harvester of the same process has it open)
         sync = not case["mem_only"] and istep >= case.get("unsynced_prefix", 0) and not st.get("nosync")
         if st.get("nosync"):
             ctx.count("unsynced_steps_after_the_file_exists")
         if not sync and not case["mem_only"]:
             ctx.count("unsynced_steps_before_first_save")
         if (st["new_session"] or force_new) and not case["mem_only"]:
-            h = xyzpy.Harvester(new_runner(ver), data_name=data_name, engine=engine)
+            h = xyzpy.Harvester(new_runner(ver), data_name=data_name, engine=engine, **hkw)
             alive.append(h)
             ctx.count("new_sessions")
             force_new = False
@@ -403,7 +426,7 @@ def run_case(ctx, case):
                         h = None
                         xyzpy.save_merge_ds(new_ds, data_name, overwrite=policy, engine=engine)
                         desc = "save_merge_ds(%d points, overwrite=%s, v%d)" % (len(pts), policy, ver)
-                        h = xyzpy.Harvester(new_runner(ver), data_name=data_name, engine=engine)
+                        h = xyzpy.Harvester(new_runner(ver), data_name=data_name, engine=engine, **hkw)
                         alive.append(h)
                         ctx.count("new_sessions")
                 elif op == "persist":
@@ -428,7 +451,12 @@ def run_case(ctx, case):
                             model[(10,) + c] = model.pop(c)
                     else:
                         desc = "save_full_ds() after un-synced harvests"
-                        if h.full_ds is not None:
+                        if h.full_ds is not None and hkw:
+                            # (a bare save_full_ds() of a lazily chunked harvester writes over the very file its arrays
+                            #  read from, which HDF5 refuses loudly; handing the dataset over is the form that can work)
+                            desc = "save_full_ds(full_ds) after un-synced harvests"
+                            h.save_full_ds(h.full_ds)
+                        elif h.full_ds is not None:
                             h.save_full_ds()
                     ctx.count("memory_persisted_after_unsynced_steps")
                 elif op == "drop_sel":
@@ -467,7 +495,7 @@ def run_case(ctx, case):
                 break
             ctx.count("conflicts_refused")
             if h is None:
-                h = xyzpy.Harvester(new_runner(ver), data_name=data_name, engine=engine)
+                h = xyzpy.Harvester(new_runner(ver), data_name=data_name, engine=engine, **hkw)
                 alive.append(h)
             # memory and disk must be unchanged: judged below against the restored model
             h._vf_note = "after refused conflict"
